@@ -447,6 +447,19 @@ def check_scans(rep, rule, m, only=None, skip_prints=True):
     from ..engines.induct import Poly
     N, one = Poly.sym("N"), Poly.const(1)
     n = 0
+    # a scan that restructures the heap it walks (removal inside the loop) cannot be said to visit "every slot once":
+    # the refill entry can sift up into the part already scanned
+    from . import c02 as _c02
+    for f_, lp_, H_, bad_ in _c02.heap_loops(m):
+        if f_.name in SCAN_EXEMPT or (skip_prints and f_.name.endswith("_print")) or (only is not None and f_.name not in only):
+            continue
+        if bad_:
+            n += 1
+            rule.instance("%s: loop over the slots of %s->heap calls %s" % (f_.name, H_, sorted(set(bad_))))
+            rep.finding(rule, f_.name, "scan:restructures-heap", "%s calls %s inside its loop over the slots of %s->heap: a removal "
+                        "refills the slot with the last entry, which can sift up into the part already scanned, so a matching "
+                        "entry is never looked at" % (f_.name, sorted(set(bad_)), H_), where=m.rel(loc(lp_)))
+            rule.fail()
     for f, loop, H in heap_walks(m):
         if f.name in SCAN_EXEMPT or (skip_prints and f.name.endswith("_print")):
             continue
